@@ -393,7 +393,22 @@ func run(c *core.Ctx) {
 	}
 	pr, pdesc := runOp(E.h, m, chain, fin, mode, false, cond, pos)
 	c.Logf("POS %s", pdesc)
-	if pr.stale != nil {
+	// a DryRun session keeps the generated SQL in the statement for inspection (by design): a read executed
+	// on such a chain value leaves its SELECT there, and a finisher called on the same value afterwards
+	// does not build its own statement. Continuing to use a dry-run chain value is outside the statement.
+	dryThenRead := false
+	sawDry := false
+	for _, st := range chain {
+		if strings.Contains(steps[st].name, "DryRun") {
+			sawDry = true
+		}
+		if sawDry && strings.HasPrefix(steps[st].name, "[") {
+			dryThenRead = true
+		}
+	}
+	if dryThenRead {
+		c.Inc("pos_dryrun_value_reused_after_read_skipped")
+	} else if pr.stale != nil {
 		c.Inc("pos_chain_value_with_earlier_error")
 	} else if errors.Is(pr.err, gorm.ErrMissingWhereClause) {
 		c.Violation("pos:"+conds[cond].name, map[string]interface{}{"chain": pdesc, "problems": []string{"rejected with ErrMissingWhereClause although a condition was given"}})
@@ -446,6 +461,7 @@ var Engine = &core.Engine{
 	Assumptions: []string{
 		"SQLite behind the recording driver stands for every database: the guard is dialect-independent code in callbacks/helper.go",
 		"a committed or rolled-back empty implicit transaction is allowed; only prepare/exec/query events count as 'executes a statement'",
+		"a chain value of a DryRun session on which a read was already executed is not used for the positive direction (DryRun keeps the read's SQL in the statement by design; the next finisher on that value does not build its own)",
 		"with AllowGlobalUpdate on (configuration, or a session placed first in the chain) the only demand is that the operation is not rejected with ErrMissingWhereClause, wherever Session / WithContext / Debug calls follow",
 	},
 	Cases: cases,
